@@ -596,7 +596,7 @@ func TestVerifC02(t *testing.T) {
 			return &plQuery{Name: "x.test.", QType: qt, Addr: cli, Answer: ans}
 		}, emit)
 	}
-	nProt := out.Scale(24, 700)
+	nProt := out.Scale(16, 700)
 	for i := 0; i < nProt; i++ {
 		ps := plNewServer(t, plProtCfg(rnd, c02Targets))
 		plRunProt(t, out, rnd, ps, 12, func() *plQuery {
@@ -608,7 +608,7 @@ func TestVerifC02(t *testing.T) {
 
 	// --- round 5: refresh passes over sources that change and fail (as in
 	// C01), with answers revealing what the stored files block
-	nRf := out.Scale(10, 300)
+	nRf := out.Scale(8, 300)
 	for i := 0; i < nRf; i++ {
 		c := plGenCfg(rnd, c02Targets)
 		if rnd.Chance(4, 5) {
